@@ -2,6 +2,7 @@
    interpreter: a program without absolute-time commands started L ticks later does the same, L ticks later.
    Self-contained on purpose (the few list / track bookkeeping facts are restated locally, prefix t_). *)
 From Sakura.Model Require Import Base Cursor Length Event Song Token LoopMachine LexCore RunCore Tie.
+From Sakura.Proofs Require Import ExtP IdleP.
 From Coq Require Import Lia.
 Open Scope Z_scope.
 
@@ -229,6 +230,7 @@ Definition shift_song (L : Z) (s : song) : song := upd_cur s (fun t => tr_set_ti
 (* s' is s moved by L, the events beyond the first n of the current track included *)
 Definition shifted (L : Z) (n : nat) (s s' : song) : Prop :=
   cur_valid s /\ (n <= length (tr_events (cur_track s)))%nat /\ tr_tie_notes (cur_track s) = [] /\
+  tr_rsv (cur_track s) = rsv_new /\            (* nothing reserved on the track (a v.onTime ramp is anchored in absolute time) *)
   exists h, s' = shift_state L n h s /\ (s_harmony_flag s = true -> h = s_harmony_time s + L).
 
 Definition shifted_res (L : Z) (n : nat) (r r' : res song) : Prop :=
@@ -250,7 +252,8 @@ Fixpoint shiftable (t : tok) : bool :=
   | TLineNo _ | TNoteN _ _ _ _ _ _ | TRest _ _ | TLength _ | TOctave _ | TOctaveRel _ | TOctaveOnce _
   | TVelocity _ _ | TVelocityRel _ | TQLen _ | TQLenRel _ | TTiming _ | TLoopBegin _ | TLoopBreak | TLoopEnd
   | THarmonyBegin | THarmonyEnd _ _ _ | TChannel _ | TVoice _ | TKeyFlag _ | TKeyShift _ | TTrackKey _ | TComment
-  | TTimeSignature _ | TMeasureShift _ | TTempo _ | TVAdd _ | TQAdd _ | TTieMode _ => true
+  | TTimeSignature _ | TMeasureShift _ | TTempo _ | TVAdd _ | TQAdd _ | TTieMode _
+  | TCC _ _ | TPitchBend _ _ | TRpnCmd _ _ _ _ | TRpnDirect _ _ => true     (* events at the pointer of the current track *)
   | _ => false
   end.
 
@@ -296,8 +299,9 @@ Proof.
 Qed.
 
 Lemma shifted_ok L n h s : cur_valid s -> (n <= length (tr_events (cur_track s)))%nat -> tr_tie_notes (cur_track s) = [] ->
+  tr_rsv (cur_track s) = rsv_new ->
   (s_harmony_flag s = true -> h = s_harmony_time s + L) -> shifted_res L n (Ok s) (Ok (shift_state L n h s)).
-Proof. intros A B C D. cbn [shifted_res]. split; [exact A|]. split; [exact B|]. split; [exact C|]. exists h. split; [reflexivity|exact D]. Qed.
+Proof. intros A B C I D. cbn [shifted_res]. split; [exact A|]. split; [exact B|]. split; [exact C|]. split; [exact I|]. exists h. split; [reflexivity|exact D]. Qed.
 
 (* a track-only arm *)
 Lemma shifted_upd_cur L n h s f g :
@@ -306,12 +310,14 @@ Lemma shifted_upd_cur L n h s f g :
   g (shift_track L n (cur_track s)) = shift_track L n (f (cur_track s)) ->
   (length (tr_events (cur_track s)) <= length (tr_events (f (cur_track s))))%nat ->
   tr_tie_notes (f (cur_track s)) = [] ->
+  tr_rsv (f (cur_track s)) = rsv_new ->
   shifted_res L n (Ok (upd_cur s f)) (Ok (upd_cur (shift_state L n h s) g)).
 Proof.
-  intros A B C D E F G. rewrite (upd_cur_shift L n h s f g A E). apply shifted_ok.
+  intros A B C D E F G I. rewrite (upd_cur_shift L n h s f g A E). apply shifted_ok.
   - apply t_cur_valid_upd_cur. exact A.
   - rewrite t_cur_track_upd_cur by exact A. lia.
   - rewrite t_cur_track_upd_cur by exact A. exact G.
+  - rewrite t_cur_track_upd_cur by exact A. exact I.
   - exact D.
 Qed.
 
@@ -362,16 +368,25 @@ Section StepShift.
   Hypothesis Hc : cur_valid s.
   Hypothesis Hn : (n <= length (tr_events (cur_track s)))%nat.
   Hypothesis Ht : tr_tie_notes (cur_track s) = [].
+  Hypothesis Hi : tr_rsv (cur_track s) = rsv_new.
   Hypothesis Hh : s_harmony_flag s = true -> h = s_harmony_time s + L.
 
   Local Notation s' := (shift_state L n h s).
 
   Lemma ct' : cur_track s' = shift_track L n (cur_track s).
   Proof. apply cur_track_shift. exact Hc. Qed.
+  Lemma ci' : cur_in s'.
+  Proof.
+    unfold cur_in, shift_state, upd_cur. cbn [s_tracks s_cur s_set_tracks s_set_harmony_time s_set_harmony_events].
+    rewrite t_upd_nth_length. exact Hc.
+  Qed.
+  Lemma idle' : cur_idle s'.
+  Proof. unfold cur_idle, idle. rewrite ct'. exact Hi. Qed.
 
   (* the tail of emit_note for a lettered note, after the pointer moved on and a pending octave-once was undone *)
   Lemma emit_tail_shift ev slur (s2 : song) h2 :
     cur_valid s2 -> (n <= length (tr_events (cur_track s2)))%nat -> tr_tie_notes (cur_track s2) = [] ->
+    tr_rsv (cur_track s2) = rsv_new ->
     (s_harmony_flag s2 = true -> h2 = s_harmony_time s2 + L) -> slur <? 1 = true ->
     shifted_res L n
       (if s_harmony_flag s2 then
@@ -390,7 +405,7 @@ Section StepShift.
          Ok (upd_cur s2' (fun t => check_tie_notes (s_timebase s2') (push_tie_note t ev')))
        else Ok (upd_cur s2' (fun t => tr_push_event t ev'))).
   Proof.
-    intros Hc2 Hn2 Ht2 Hh2 Hs. cbv zeta.
+    intros Hc2 Hn2 Ht2 Hi2 Hh2 Hs. cbv zeta.
     change (s_harmony_flag (shift_state L n h2 s2)) with (s_harmony_flag s2).
     destruct (s_harmony_flag s2) eqn:F.
     - change (s_harmony_time (shift_state L n h2 s2)) with h2.
@@ -409,6 +424,8 @@ Section StepShift.
         unfold Y. rewrite t_cur_track_upd_cur by exact Hc2. exact Hn2.
       + change (cur_track (s_set_harmony Y true (s_harmony_time s2) (s_harmony_events s2 ++ [ev]))) with (cur_track Y).
         unfold Y. rewrite t_cur_track_upd_cur by exact Hc2. exact Ht2.
+      + change (cur_track (s_set_harmony Y true (s_harmony_time s2) (s_harmony_events s2 ++ [ev]))) with (cur_track Y).
+        unfold Y. rewrite t_cur_track_upd_cur by exact Hc2. exact Hi2.
       + intros _. reflexivity.
     - replace (slur >=? 1) with false by lia.
       rewrite (cur_track_shift L n h2 s2 Hc2). change (tr_tie_notes (shift_track L n (cur_track s2))) with (tr_tie_notes (cur_track s2)).
@@ -425,10 +442,10 @@ Section StepShift.
     apply shifted_ok; unfold cur_valid, cur_track; rewrite ?I1, ?I2, ?I3, ?I4; assumption.
   Qed.
 
-  Lemma emit_note_shift ev nl b slur : (b = true -> slur <? 1 = true) ->
-    shifted_res L n (emit_note s ev nl b slur) (emit_note s' (shift_ev L ev) nl b slur).
+  Lemma emit_note_plain_shift ev nl b slur : (b = true -> slur <? 1 = true) ->
+    shifted_res L n (emit_note_plain s ev nl b slur) (emit_note_plain s' (shift_ev L ev) nl b slur).
   Proof.
-    intros Hb. unfold emit_note. destruct b.
+    intros Hb. unfold emit_note_plain. destruct b.
     - specialize (Hb eq_refl).
       set (F1 := fun t => tr_set_timepos t (tr_timepos t + nl)).
       assert (E1 : upd_cur s' F1 = shift_state L n h (upd_cur s F1)) by (apply upd_cur_shift; [exact Hc|unfold F1; track_eq]).
@@ -452,6 +469,24 @@ Section StepShift.
       + track_eq.
       + cbn [tr_push_event tr_set_events tr_set_timepos tr_events]. rewrite app_length. lia.
   Qed.
+  Lemma emit_note_shift ev nl b slur : (b = true -> slur <? 1 = true) ->
+    shifted_res L n (emit_note s ev nl b slur) (emit_note s' (shift_ev L ev) nl b slur).
+  Proof.
+    intros Hb. rewrite (emit_note_idle s _ _ _ _ Hc Hi), (emit_note_idle s' _ _ _ _ ci' idle').
+    apply emit_note_plain_shift. exact Hb.
+  Qed.
+
+  (* the command arms that add events at the pointer of the current track *)
+  Lemma add_events_shift f : (forall tp ch, f (tp + L) ch = map (shift_ev L) (f tp ch)) ->
+    shifted_res L n (Ok (add_events s f)) (Ok (add_events s' f)).
+  Proof.
+    intros Hf. rewrite !add_events_eq, ct'.
+    cbn [shift_track tr_set_events tr_set_timepos tr_timepos tr_channel]. rewrite Hf.
+    apply shifted_upd_cur; try assumption.
+    - unfold tr_push_events, shift_track. cbn [tr_set_events tr_set_timepos tr_events tr_timepos].
+      rewrite shift_tail_app by exact Hn. reflexivity.
+    - unfold tr_push_events. cbn [tr_set_events tr_events]. rewrite app_length. lia.
+  Qed.
 
   Hypothesis Hec : respects.
 
@@ -460,7 +495,9 @@ Section StepShift.
     intros Hs.
     destruct t; cbn [shiftable] in Hs; try discriminate; cbn [step_song].
     - (* TLineNo *) apply (shifted_ok L n h (s_set_lineno s ln)); assumption.
-    - (* TNote *) unfold exec_note. rewrite ct'.
+    - (* TNote *)
+      rewrite (exec_note_idle s _ _ _ _ _ _ _ _ _ Hc Hi), (exec_note_idle s' _ _ _ _ _ _ _ _ _ ci' idle').
+      unfold exec_note_plain. rewrite ct'.
       change (note_number s' base flag natural oct) with
         (let trk := shift_track L n (cur_track s) in
          let no := base mod 12 in
@@ -472,15 +509,20 @@ Section StepShift.
       cbn [shift_track tr_set_events tr_set_timepos tr_timepos tr_channel tr_length tr_octave tr_velocity tr_qlen tr_timing tr_track_key].
       change (s_timebase s') with (s_timebase s). change (s_use_key_shift s') with (s_use_key_shift s).
       change (s_key_flag s') with (s_key_flag s). change (s_key_shift s') with (s_key_shift s).
-      rewrite shift_ev_note. apply emit_note_shift. intros _. exact Hs.
-    - (* TNoteN *) unfold exec_note_n. rewrite ct'.
+      rewrite shift_ev_note. apply emit_note_plain_shift. intros _. exact Hs.
+    - (* TNoteN *)
+      rewrite (exec_note_n_idle s _ _ _ _ _ _ Hc Hi), (exec_note_n_idle s' _ _ _ _ _ _ ci' idle').
+      unfold exec_note_n_plain. rewrite ct'.
       cbn [shift_track tr_set_events tr_set_timepos tr_timepos tr_channel tr_length tr_octave tr_velocity tr_qlen tr_timing tr_track_key].
       change (s_timebase s') with (s_timebase s). change (s_key_shift s') with (s_key_shift s).
-      rewrite shift_ev_note. apply emit_note_shift. discriminate.
+      rewrite shift_ev_note. apply emit_note_plain_shift. discriminate.
     - (* TRest *) unfold exec_rest. change (s_timebase s') with (s_timebase s).
       apply shifted_upd_cur; try assumption; [track_eq|len_ok].
-    - (* TLength *) change (s_timebase s') with (s_timebase s). apply shifted_upd_cur; try assumption; [track_eq|len_ok].
-    - (* TOctave *) apply shifted_upd_cur; try assumption; [track_eq|len_ok].
+    - (* TLength *) change (s_timebase s') with (s_timebase s).
+      rewrite (upd_cur_clear s Reserve.WL (fun x => tr_set_length x (calc_length len (s_timebase s) (s_timebase s))) Hi), (upd_cur_clear s' Reserve.WL (fun x => tr_set_length x (calc_length len (s_timebase s) (s_timebase s))) idle').
+      apply shifted_upd_cur; try assumption; [track_eq|len_ok].
+    - (* TOctave *) rewrite (upd_cur_clear s Reserve.WO (fun x => tr_set_octave x (value_range 0 v 10)) Hi), (upd_cur_clear s' Reserve.WO (fun x => tr_set_octave x (value_range 0 v 10)) idle').
+      apply shifted_upd_cur; try assumption; [track_eq|len_ok].
     - (* TOctaveRel *) apply shifted_upd_cur; try assumption; [track_eq|len_ok].
     - (* TOctaveOnce *)
       set (F := fun t => tr_set_octave t (value_range 0 (tr_octave t + v) 10)).
@@ -492,12 +534,18 @@ Section StepShift.
         rewrite t_cur_track_upd_cur by exact Hc. exact Hn.
       + change (cur_track (s_set_octave_once (upd_cur s F) (s_octave_once s + v))) with (cur_track (upd_cur s F)).
         rewrite t_cur_track_upd_cur by exact Hc. exact Ht.
+      + change (cur_track (s_set_octave_once (upd_cur s F) (s_octave_once s + v))) with (cur_track (upd_cur s F)).
+        rewrite t_cur_track_upd_cur by exact Hc. exact Hi.
       + exact Hh.
-    - (* TVelocity *) destruct (ino >? 0); [reflexivity|]. apply shifted_upd_cur; try assumption; [track_eq|len_ok].
+    - (* TVelocity *) destruct (ino >? 0); [reflexivity|].
+      rewrite (upd_cur_clear s Reserve.WV (fun x => tr_set_velocity x (value_range 0 v 127)) Hi), (upd_cur_clear s' Reserve.WV (fun x => tr_set_velocity x (value_range 0 v 127)) idle').
+      apply shifted_upd_cur; try assumption; [track_eq|len_ok].
     - (* TVelocityRel *) change (s_v_add s') with (s_v_add s). apply shifted_upd_cur; try assumption; [track_eq|len_ok].
-    - (* TQLen *) apply shifted_upd_cur; try assumption; [track_eq|len_ok].
+    - (* TQLen *) rewrite (upd_cur_clear s Reserve.WQ (fun x => tr_set_qlen x (value_range 0 v 100)) Hi), (upd_cur_clear s' Reserve.WQ (fun x => tr_set_qlen x (value_range 0 v 100)) idle').
+      apply shifted_upd_cur; try assumption; [track_eq|len_ok].
     - (* TQLenRel *) change (s_q_add s') with (s_q_add s). apply shifted_upd_cur; try assumption; [track_eq|len_ok].
-    - (* TTiming *) apply shifted_upd_cur; try assumption; [track_eq|len_ok].
+    - (* TTiming *) rewrite (upd_cur_clear s Reserve.WT (fun x => tr_set_timing x v) Hi), (upd_cur_clear s' Reserve.WT (fun x => tr_set_timing x v) idle').
+      apply shifted_upd_cur; try assumption; [track_eq|len_ok].
     - (* TLoopBegin *) apply shifted_ok; assumption.
     - (* TLoopBreak *) apply shifted_ok; assumption.
     - (* TLoopEnd *) apply shifted_ok; assumption.
@@ -530,6 +578,8 @@ Section StepShift.
         rewrite t_cur_track_upd_cur by exact Hc. unfold F1. cbn [tr_set_timepos tr_set_events tr_events]. rewrite app_length. lia.
       + change (cur_track (s_set_harmony (upd_cur s F1) false H [])) with (cur_track (upd_cur s F1)).
         rewrite t_cur_track_upd_cur by exact Hc. exact Ht.
+      + change (cur_track (s_set_harmony (upd_cur s F1) false H [])) with (cur_track (upd_cur s F1)).
+        rewrite t_cur_track_upd_cur by exact Hc. exact Hi.
       + cbn. discriminate.
     - (* TDiv *)
       apply andb_prop in Hs || idtac.
@@ -543,7 +593,7 @@ Section StepShift.
       pose proof (Hec children _ _ Hs R0) as R1.
       destruct (ec children (Ok (upd_cur s F0))) as [s2| | |], (ec children (Ok (upd_cur s' F0))) as [s2'| | |];
         cbn [shifted_res] in R1; try contradiction; cbn [bind shifted_res]; try exact R1.
-      destruct R1 as [Hc2 [Hn2 [Ht2 [h2 [-> Hh2]]]]].
+      destruct R1 as [Hc2 [Hn2 [Ht2 [Hi2 [h2 [-> Hh2]]]]]].
       apply shifted_upd_cur; try assumption; [track_eq|len_ok].
     - (* TSub *)
       rewrite ct'. cbn [shift_track tr_set_events tr_set_timepos tr_timepos].
@@ -551,7 +601,7 @@ Section StepShift.
       pose proof (Hec children _ _ Hs R0) as R1.
       destruct (ec children (Ok s)) as [s2| | |], (ec children (Ok s')) as [s2'| | |];
         cbn [shifted_res] in R1; try contradiction; cbn [bind shifted_res]; try exact R1.
-      destruct R1 as [Hc2 [Hn2 [Ht2 [h2 [-> Hh2]]]]].
+      destruct R1 as [Hc2 [Hn2 [Ht2 [Hi2 [h2 [-> Hh2]]]]]].
       apply shifted_upd_cur; try assumption; [track_eq|len_ok].
     - (* TChannel *) apply shifted_upd_cur; try assumption; [track_eq|len_ok].
     - (* TVoice *) unfold exec_voice. rewrite ct'.
@@ -603,6 +653,13 @@ Section StepShift.
     - (* TVAdd *) apply (shifted_ok L n h (s_set_adds s arg (s_q_add s))); assumption.
     - (* TQAdd *) apply (shifted_ok L n h (s_set_adds s (s_v_add s) arg)); assumption.
     - (* TTieMode *) apply shifted_upd_cur; try assumption; [track_eq|len_ok].
+    - (* TCC *) rewrite (upd_cur_remove_wave s no Hi), (upd_cur_remove_wave s' no idle').
+      apply add_events_shift. reflexivity.
+    - (* TPitchBend *) apply add_events_shift. reflexivity.
+    - (* TRpnCmd *) apply add_events_shift. destruct nrpn; reflexivity.
+    - (* TRpnDirect *) unfold exec_rpn_direct, runtime_error. change (s_lineno s') with (s_lineno s).
+      destruct args as [|a [|b [|c [|d l]]]]; try apply add_log_shifted_ok.
+      apply add_events_shift. destruct nrpn; reflexivity.
   Qed.
   End One.
 
@@ -611,7 +668,7 @@ Section StepShift.
   Proof.
     intros Hec t r r' Ht R. destruct r as [s| | |], r' as [s'| | |]; cbn [shifted_res] in R; try contradiction;
       cbn [step_tok bind shifted_res]; try exact R.
-    destruct R as [Hc [Hn [Htie [h [-> Hh]]]]]. apply step_shift; assumption.
+    destruct R as [Hc [Hn [Htie [Hi [h [-> Hh]]]]]]. apply step_shift; assumption.
   Qed.
 End StepShift.
 
@@ -758,7 +815,7 @@ Qed.
 Lemma halted_shifted L n r r' : shifted_res L n r r' -> halted r = halted r'.
 Proof.
   destruct r as [s| | |], r' as [s'| | |]; cbn [shifted_res]; try contradiction; try reflexivity.
-  intros [_ [_ [_ [h [-> _]]]]]. reflexivity.
+  intros [_ [_ [_ [_ [h [-> _]]]]]]. reflexivity.
 Qed.
 
 Theorem exec_with_shift L n ec fuel : respects L n ec -> respects L n (exec_with ec fuel).
@@ -792,11 +849,12 @@ Qed.
 
 (* the start of a run: nothing pending *)
 Definition calm (s : song) : Prop :=
-  cur_valid s /\ tr_tie_notes (cur_track s) = [] /\ s_harmony_flag s = false /\ s_harmony_events s = [].
+  cur_valid s /\ tr_tie_notes (cur_track s) = [] /\ s_harmony_flag s = false /\ s_harmony_events s = [] /\
+  tr_rsv (cur_track s) = rsv_new.       (* nothing reserved on the track *)
 
 Lemma shifted_start L s : calm s -> shifted L (length (tr_events (cur_track s))) s (shift_song L s).
 Proof.
-  intros [Hc [Ht [Hf He]]]. split; [exact Hc|]. split; [lia|]. split; [exact Ht|].
+  intros [Hc [Ht [Hf [He Hi]]]]. split; [exact Hc|]. split; [lia|]. split; [exact Ht|]. split; [exact Hi|].
   exists (s_harmony_time s). split; [apply shift_song_is_shift_state; assumption|]. rewrite Hf. discriminate.
 Qed.
 
@@ -811,11 +869,11 @@ Theorem shifted_unpack L n s s' : shifted L n s s' ->
   s_harmony_events s' = map (shift_ev L) (s_harmony_events s) /\
   (s_harmony_flag s = true -> s_harmony_time s' = s_harmony_time s + L).
 Proof.
-  intros [Hc [Hn [Ht [h [-> Hh]]]]]. rewrite cur_track_shift by exact Hc.
+  intros [Hc [Hn [Ht [Hi [h [-> Hh]]]]]]. rewrite cur_track_shift by exact Hc.
   repeat split; try reflexivity.
   - unfold shift_state, upd_cur. cbn [s_tracks s_set_tracks s_set_harmony_time s_set_harmony_events]. apply t_upd_nth_length.
-  - intros i Hi. unfold shift_state, upd_cur. cbn [s_tracks s_set_tracks s_set_harmony_time s_set_harmony_events].
-    apply t_nth_upd_nth_neq. exact Hi.
+  - intros i Hne. unfold shift_state, upd_cur. cbn [s_tracks s_set_tracks s_set_harmony_time s_set_harmony_events].
+    apply t_nth_upd_nth_neq. exact Hne.
   - exact Hh.
 Qed.
 
